@@ -339,7 +339,9 @@ impl Model {
             return;
         }
         self.memo_live.insert((m, key), hid);
-        if self.nodes[hid].invalid {
+        // (a function memoised inside a bind run rightly keeps returning that run's nodes after the
+        // bind re-ran: they are invalid then)
+        if self.nodes[hid].invalid && !matches!(self.nodes[hid].rk, RK::BMemo { .. }) {
             viol!(self, at, "C20", "memo-invalid", "memo {} key {} returned node {} which is invalid", m, key, hid);
         }
     }
